@@ -1085,6 +1085,48 @@ func (c *specCtx) call(n *ast.CallExpr) (sv, error) {
 			return c.mk(types.Typ[types.Uint64], v.S), nil
 		}
 		return sv{}, c.errf("bits() of non-float")
+	case "map_unchanged_except":
+		// map_unchanged_except(m, k1, ...): every entry of map m other than those of the listed
+		// keys is the same as in the old state (present <=> was present, same value)
+		if c.old == nil || len(args) < 1 {
+			return sv{}, c.errf("map_unchanged_except(m, keys...) needs an old state")
+		}
+		mn, err := c.eval(args[0])
+		if err != nil {
+			return sv{}, err
+		}
+		oc := c.clone()
+		oc.st = c.old
+		mo, err := oc.eval(args[0])
+		if err != nil {
+			return sv{}, err
+		}
+		mt, ok := mn.T.Underlying().(*types.Map)
+		if !ok {
+			return sv{}, c.errf("map_unchanged_except: not a map")
+		}
+		e.sc.n++
+		q := fmt.Sprintf("q.mk.%d", e.sc.n)
+		ks := e.mapKeySort(mt.Key())
+		var ne []string
+		for _, a := range args[1:] {
+			k, err := c.eval(a)
+			if err != nil {
+				return sv{}, err
+			}
+			k, err = c.coerce(k, mt.Key())
+			if err != nil {
+				return sv{}, err
+			}
+			ne = append(ne, not(eq(q, e.mapKeyTerm(mt.Key(), k.S))))
+		}
+		dk, dsrt, vk, vsrt := e.mapKeys(mt)
+		dn := fmt.Sprintf("(and (not (= %s 0)) (select (select %s %s) %s))", mn.S, e.memGet(c.st, dk, dsrt), mn.S, q)
+		do := fmt.Sprintf("(and (not (= %s 0)) (select (select %s %s) %s))", mo.S, e.memGet(c.old, dk, dsrt), mo.S, q)
+		vn := fmt.Sprintf("(select (select %s %s) %s)", e.memGet(c.st, vk, vsrt), mn.S, q)
+		vo := fmt.Sprintf("(select (select %s %s) %s)", e.memGet(c.old, vk, vsrt), mo.S, q)
+		body := imp(and(ne...), and(eq(dn, do), imp(dn, eq(vn, vo))))
+		return c.mk(tBool, fmt.Sprintf("(forall ((%s %s)) %s)", q, ks, body)), nil
 	case "haskey":
 		m, err := c.eval(args[0])
 		if err != nil {
@@ -1169,6 +1211,28 @@ func (c *specCtx) call(n *ast.CallExpr) (sv, error) {
 	// spec function
 	if sf := e.eng.spec.lookup(id.Name, e.mode); sf != nil {
 		return c.specCall(sf, args)
+	}
+	// predicate of the contract files
+	if pr := e.eng.contracts.Preds[id.Name]; pr != nil {
+		if len(args) != len(pr.Params) {
+			return sv{}, c.errf("predicate %s expects %d arguments", pr.Name, len(pr.Params))
+		}
+		cc := c.clone()
+		for i, pn := range pr.Params {
+			v, err := c.eval(args[i])
+			if err != nil {
+				return sv{}, err
+			}
+			if v.c != nil {
+				return sv{}, c.errf("predicate %s: constant argument needs a conversion", pr.Name)
+			}
+			cc.bound[pn] = v.Val
+		}
+		x, err := parser.ParseExpr(rewriteImp(pr.Body))
+		if err != nil {
+			return sv{}, c.errf("predicate %s: %v", pr.Name, err)
+		}
+		return cc.eval(x)
 	}
 	return sv{}, c.errf("unknown function %q", id.Name)
 }
